@@ -111,19 +111,32 @@ def fontOf (env : Env) : FontSel → Option Font
   | .fallback => some Font.fallback
 
 /-- `PDFFont.char_width`. -/
-def charWidth (f : Font) (cid : Nat) : Rat := char_width_scaled (f.width cid) font_hscale
+def charWidth (f : Font) (cid : Nat) : Rat := char_width_scaled (f.width cid) f.hscale
 
-/-- `LTChar.__init__` for a horizontal font; `matrix` is what `render_char` receives. -/
+/-- `vx` of `LTChar.__init__` (vertical writing): half the font size when the font gives none. -/
+def ltcharVx (f : Font) (fontsize : Rat) (cid : Nat) : Rat :=
+  match (f.disp cid).1 with
+  | none => ltchar_vx_default fontsize
+  | some vx => ltchar_vx vx fontsize
+
+/-- `LTChar.__init__`; `matrix` is what `render_char` receives. -/
 def ltchar (matrix : Matrix) (f : Font) (fontsize scaling rise : Rat) (cid : Nat) (ncolor : Option Color) : Glyph :=
-  let adv := ltchar_adv (charWidth f cid) fontsize scaling
-  let descent := ltchar_descent (font_get_descent f.descent font_vscale) fontsize
-  let bbox := ltchar_bbox_h descent rise adv fontsize
+  let adv := if f.vertical then ltchar_adv_v (charWidth f cid) fontsize else ltchar_adv (charWidth f cid) fontsize scaling
+  let bbox :=
+    if f.vertical then
+      let vx := ltcharVx f fontsize cid
+      let vy := ltchar_vy (f.disp cid).2 fontsize
+      ltchar_bbox_v vx vy rise adv fontsize
+    else
+      let descent := ltchar_descent (font_get_descent f.descent f.vscale) fontsize
+      ltchar_bbox_h descent rise adv fontsize
   let (x0, y0, x1, y1) := apply_matrix_rect matrix bbox
   let (x0, x1) := if x1 < x0 then (x1, x0) else (x0, x1)
   let (y0, y1) := if y1 < y0 then (y1, y0) else (y0, y1)
-  { m := matrix, adv := adv, bbox := (x0, y0, x1, y1), size := y1 - y0, font := f.name, col := ncolor }
+  { m := matrix, adv := adv, bbox := (x0, y0, x1, y1), size := if f.vertical then x1 - x0 else y1 - y0,
+    font := f.name, col := ncolor }
 
-/-! ### `PDFTextDevice.render_string_horizontal` -/
+/-! ### `PDFTextDevice.render_string_horizontal` / `render_string_vertical` -/
 
 /-- The inner `for cid in font.decode(obj)` loop; returns the new `x` and the glyphs. -/
 def renderCodes (f : Font) (matrix : Matrix) (fontsize scaling charspace wordspace rise : Rat)
@@ -143,24 +156,53 @@ def renderSeq (f : Font) (matrix : Matrix) (fontsize scaling charspace wordspace
   | x, [] => (x, [])
   | x, .num n :: rest =>
     renderSeq f matrix fontsize scaling charspace wordspace rise dxscale ncolor y (x - n * dxscale) rest
-  | x, .str codes :: rest =>
-    let (x1, g1) := renderCodes f matrix fontsize scaling charspace wordspace rise ncolor y x codes
+  | x, .str bytes :: rest =>
+    let (x1, g1) := renderCodes f matrix fontsize scaling charspace wordspace rise ncolor y x (f.decode bytes)
     let (x2, g2) := renderSeq f matrix fontsize scaling charspace wordspace rise dxscale ncolor y x1 rest
     (x2, g1 ++ g2)
   | x, .other :: rest =>
     renderSeq f matrix fontsize scaling charspace wordspace rise dxscale ncolor y x rest
 
-/-- `PDFTextDevice.render_string` (simple horizontal font). -/
+/-- `render_string_vertical`: the same loops advancing `y`. -/
+def renderCodesV (f : Font) (matrix : Matrix) (fontsize scaling charspace wordspace rise : Rat)
+    (ncolor : Option Color) (x : Rat) : Rat → List Nat → Rat × List Glyph
+  | y, [] => (y, [])
+  | y, cid :: rest =>
+    let g := ltchar (translate_matrix matrix (x, y)) f fontsize scaling rise cid ncolor
+    let y := y + g.adv
+    let y := y + charspace
+    let y := if cid = 32 ∧ wordspace ≠ 0 then y + wordspace else y
+    let (y', gs) := renderCodesV f matrix fontsize scaling charspace wordspace rise ncolor x y rest
+    (y', g :: gs)
+
+def renderSeqV (f : Font) (matrix : Matrix) (fontsize scaling charspace wordspace rise dxscale : Rat)
+    (ncolor : Option Color) (x : Rat) : Rat → List Elem → Rat × List Glyph
+  | y, [] => (y, [])
+  | y, .num n :: rest =>
+    renderSeqV f matrix fontsize scaling charspace wordspace rise dxscale ncolor x (y - n * dxscale) rest
+  | y, .str bytes :: rest =>
+    let (y1, g1) := renderCodesV f matrix fontsize scaling charspace wordspace rise ncolor x y (f.decode bytes)
+    let (y2, g2) := renderSeqV f matrix fontsize scaling charspace wordspace rise dxscale ncolor x y1 rest
+    (y2, g1 ++ g2)
+  | y, .other :: rest =>
+    renderSeqV f matrix fontsize scaling charspace wordspace rise dxscale ncolor x y rest
+
+/-- `PDFTextDevice.render_string`. -/
 def renderString (f : Font) (dctm : Matrix) (ts : TextState) (ncolor : Option Color) (seq : List Elem) :
     TextState × List Glyph :=
   let matrix := mult_matrix ts.matrix dctm
   let scaling := rs_scaling ts.scaling
   let charspace := rs_charspace ts.charspace scaling
-  let wordspace := rs_wordspace ts.wordspace scaling
+  let wordspace := if f.multibyte then 0 else rs_wordspace ts.wordspace scaling
   let dxscale := rs_dxscale ts.fontsize scaling
   let (x, y) := ts.linematrix
-  let (x', gs) := renderSeq f matrix ts.fontsize scaling charspace wordspace ts.rise dxscale ncolor y x seq
-  ({ ts with linematrix := (x', y) }, gs)
+  if f.vertical then
+    let (y', gs) := renderSeqV f matrix ts.fontsize scaling (rs_charspace_v ts.charspace scaling) wordspace ts.rise
+      (rs_dxscale_v ts.fontsize scaling) ncolor x y seq
+    ({ ts with linematrix := (x, y') }, gs)
+  else
+    let (x', gs) := renderSeq f matrix ts.fontsize scaling charspace wordspace ts.rise dxscale ncolor y x seq
+    ({ ts with linematrix := (x', y) }, gs)
 
 /-! ### the `do_*` methods -/
 
